@@ -160,6 +160,16 @@ impl J {
     }
 }
 
+/// parse JSON text without serde_json's recursion limit (generated documents may be hundreds of
+/// levels deep); callers run on threads with large stacks or on inputs of a few hundred levels
+pub fn parse_json_unbounded(text: &str) -> Result<Value, String> {
+    let mut de = serde_json::Deserializer::from_str(text);
+    de.disable_recursion_limit();
+    let v = <Value as serde::Deserialize>::deserialize(&mut de).map_err(|e| e.to_string())?;
+    de.end().map_err(|e| e.to_string())?;
+    Ok(v)
+}
+
 /// RFC 9535 2.3.5.2.2 equality: numbers by mathematical value, arrays element-wise, objects as
 /// name -> value maps, everything else by kind and content.
 pub fn eq_json(a: &J, b: &J) -> bool {
